@@ -650,6 +650,18 @@ func c08CLICases(inj []c08Inj, thorough bool) []c08CLICase {
 			}
 		}
 	}
+	// bkli / bkld over lists of different lengths, with and without common entries, in both argument orders
+	{
+		ls := []string{"[]", "[1]", "[1, 2, 3]", "[4]", "[3, 1]", "[{a: 1}, {a: 2}, {b: 3}]", "[{a: 2}]", "[[1], [2, 3]]", "[1, 1, 1]", "[x, y, z, w]"}
+		for _, a := range ls {
+			for _, b := range ls {
+				files := map[string]string{"p.yaml": "k: 1\nl: " + a + "\n", "q.yaml": "k: 1\nl: " + b + "\n", "r.yaml": "k: 1\nl: [1]\n"}
+				out = append(out, c08CLICase{Tool: "bkli", Files: files, Args: []string{"p.yaml", "q.yaml"}})
+				out = append(out, c08CLICase{Tool: "bkli", Files: files, Args: []string{"p.yaml", "q.yaml", "r.yaml"}})
+				out = append(out, c08CLICase{Tool: "bkld", Files: files, Args: []string{"p.yaml", "q.yaml"}})
+			}
+		}
+	}
 	// odd process environments: entries that are not NAME=value, empty names and values, huge values
 	for _, env := range [][]string{{"NOEQUALS"}, {"=x"}, {"A="}, {""}, {"V=" + strings.Repeat("v", 100000)}, {"A=1", "A=2"}, {"BKL_VERSION="}} {
 		for _, t := range []string{"bkl", "bkld", "bkli", "bklr"} {
